@@ -92,6 +92,8 @@ def gen_case(run_seed: int, index: int, tier: str) -> dict:
         "module_cast": rng.choice([None, None, None, "double", "float", "to_cpu", "deepcopy"]),
         "noncontig": rng.random() < 0.2,
         "warmup_n": rng.choice([1, 1, 2, 4]), "other_instance_first": rng.random() < 0.2, "mode_toggle": rng.choice([None, None, "eval", "train"]),
+        "supplied_precision": rng.choice(["same", "same", "noise_other", "csi_other", "both_other"]),
+        "dc": rng.random() < 0.4,  # noise mode: a signal with a DC component through channel state with a non-zero mean
     }
 
 
@@ -211,19 +213,28 @@ def execute(case: dict) -> RunResult:
         x0 = x.clone()
         h = torch.complex(torch.randn(B, L, generator=g), torch.randn(B, L, generator=g)).to(cdt)
         nz = torch.complex(torch.randn(B, L, generator=g), torch.randn(B, L, generator=g)).to(cdt) * 0.3
+        prec = case.get("supplied_precision", "same")  # the caller's csi / noise may be kept in another precision than the signal
+        other_c = torch.complex64 if cdt == torch.complex128 else torch.complex128
+        if prec in ("noise_other", "both_other"):
+            nz = (nz.to(torch.complex128) * (1.0 + 1e-9)).to(other_c) if other_c == torch.complex128 else nz.to(other_c)
+        if prec in ("csi_other", "both_other"):
+            h = h.to(other_c)
+        res.probes[f"supplied.precision_{prec}"] += 1
         if len(shape) == 1:
             h_arg, n_arg = (h.reshape(L), nz.reshape(L)) if (case["data_seed"] & 1) else (h, nz)
         else:
             h_arg, n_arg = h, nz
         torch.manual_seed(case["torch_seed"])
         y = ch(x, csi=h_arg, noise=n_arg)
-        want = (h * as_c(flat(x)) + nz).reshape(shape)
+        want = (h * as_c(flat(x)) + nz).reshape(shape)  # ordinary tensor arithmetic, with its type promotion
         log.add("supplied", y)
         res.faults["injected.csi"] += 1
         res.faults["injected.noise"] += 1
         res.nontrivial.append(core.short_hash(case))
         if list(y.shape) != list(shape):
             violate("shape", f"output shape {list(y.shape)} differs from input shape {list(shape)}")
+        elif y.dtype != want.dtype:
+            violate("supplied_identity", f"channel(x, csi=h, noise=n) has dtype {y.dtype}, h*x + n has dtype {want.dtype} (x {x.dtype}, h {h.dtype}, n {nz.dtype})", precision=prec)
         elif not torch.equal(y, want):
             violate("supplied_identity", f"channel(x, csi=h, noise=n) is not exactly h*x + n (max abs difference {float((y - want).abs().max()):.3g})")
         if not torch.equal(x, x0):
@@ -329,6 +340,10 @@ def execute(case: dict) -> RunResult:
     else:  # noise calibrated against the *faded* signal, csi supplied so the faded signal is known
         x = _signal(case, g)
         h = (torch.complex(torch.randn(B, nblocks, generator=g), torch.randn(B, nblocks, generator=g)) * (0.5 ** 0.5)).to(cdt)
+        if case.get("dc"):
+            x = x.abs() + 0.5 * math.sqrt(case["sig_power"]) if not torch.is_complex(x) else x + (1.0 + 0.5j) * math.sqrt(case["sig_power"])
+            h = h * 0.3 + (0.9 + 0.2j)  # line-of-sight-like state: the faded signal has a clearly non-zero mean
+            res.probes["noise.dc_signal_and_mean_csi"] += 1
         hexp = h[:, torch.arange(L) // T]
         torch.manual_seed(case["torch_seed"])
         y = ch(x, csi=hexp)
